@@ -7,7 +7,7 @@ ids=${@:-$(ls seeded | grep -E '^C[0-9]+-m[0-9]+$')}
 tmp=$(mktemp)
 for id in $ids; do
   prop=${id%%-*}
-  res=$(tools/try_mutant.sh $id seeded/$id/patch.diff quick $prop 2>&1 | tail -1)
+  res=$(tools/try_mutant.sh $id /verif/seeded/$id/patch.diff quick $prop 2>&1 | tail -1)
   case "$res" in
     *"PATCH DOES NOT APPLY"*) echo "| $id | $prop | patch no longer applies to the current tree (base $(python3 -c "import json;print(json.load(open('seeded/$id/meta.json'))['base_commit'])")) | - |" >> $tmp; continue;;
   esac
@@ -15,7 +15,7 @@ for id in $ids; do
   if [ "${v:-0}" -gt 0 ]; then
     echo "| $id | $prop | quick | $v |" >> $tmp
   else
-    res=$(tools/try_mutant.sh $id seeded/$id/patch.diff thorough $prop 2>&1 | tail -1)
+    res=$(tools/try_mutant.sh $id /verif/seeded/$id/patch.diff thorough $prop 2>&1 | tail -1)
     v=$(echo "$res" | sed -n 's/.*violations=\([0-9]*\).*/\1/p')
     if [ "${v:-0}" -gt 0 ]; then echo "| $id | $prop | thorough | $v |" >> $tmp; else echo "| $id | $prop | NOT DETECTED | 0 |" >> $tmp; fi
   fi
